@@ -146,3 +146,102 @@ Proof. intros Hv Hn. rewrite (proj1 fphs_std true). apply encode_decode; first [
 Lemma encode_sp_neg_zero : FPH_to_ieee754 fph_sp (PFin true 0 0) = 0 /\ FPH_to_ieee754 fph_dp (PFin true 0 0) = 2 ^ 63 /\
                            FPH_from_ieee754 fph_sp (2 ^ 31) = PFin true 0 0.
 Proof. vm_compute. repeat split. Qed.
+
+(* ------------------------------------------------------------------ representation independence: any (n, d) with the same value *)
+Lemma dyadic_parts n d M k : 0 < n -> 0 < M -> (inject_Z n * two_pow (- d) == inject_Z M * two_pow k)%Q ->
+  fp_to_parts_e n d = Z.log2 M + k /\ (fp_to_parts_m n d == inject_Z M * two_pow (- Z.log2 M))%Q.
+Proof.
+  intros Hn HM Hq. set (A := Z.abs d + Z.abs k).
+  assert (Hz : n * 2 ^ (A - d) = M * 2 ^ (A + k)).
+  { apply inject_Z_injective. rewrite !inject_Z_mult, <- !two_pow_Z by (unfold A; lia).
+    unfold Z.sub. rewrite !two_pow_add.
+    transitivity ((inject_Z n * two_pow (- d)) * two_pow A)%Q; [ring|]. rewrite Hq. ring. }
+  assert (Hl : Z.log2 n - d = Z.log2 M + k).
+  { pose proof (Z.log2_mul_pow2 n (A - d) Hn ltac:(unfold A; lia)) as L1.
+    pose proof (Z.log2_mul_pow2 M (A + k) HM ltac:(unfold A; lia)) as L2. rewrite Hz in L1. lia. }
+  split; [exact Hl|]. unfold fp_to_parts_m.
+  assert (Hn' : (inject_Z n == inject_Z M * two_pow (k + d))%Q).
+  { rewrite two_pow_add, Qmult_assoc, <- Hq, <- Qmult_assoc, <- two_pow_add. replace (- d + d) with 0 by lia. rewrite two_pow_0. ring. }
+  rewrite Hn', <- Qmult_assoc, <- two_pow_add. replace (k + d + - Z.log2 n) with (- Z.log2 M) by lia. reflexivity.
+Qed.
+
+Lemma b2z_bit' s : 0 <= s <= 1 -> b2z (s =? 1) = s.
+Proof. intros. assert (s = 0 \/ s = 1) as [-> | ->] by lia; reflexivity. Qed.
+
+Section E2.
+Variables ew mw nanm : Z.
+Variable zs : bool.
+Hypothesis Hew : 2 <= ew.
+Hypothesis Hmw : 1 <= mw.
+Let H := fph_std ew mw nanm zs.
+Let bias := 2 ^ (ew - 1) - 1.
+
+Lemma sgnq_cancel neg p q : (sgnq neg * p == sgnq neg * q)%Q -> (p == q)%Q.
+Proof. destruct neg; unfold sgnq; intros E; [apply Qopp_comp in E|]; ring_simplify in E; exact E. Qed.
+
+(* the encoder is exact on every representable value, however the float is written as n / 2^d *)
+Lemma encode_exact x v : 0 <= v < 2 ^ (1 + ew + mw) ->
+  match x with PNaN => False | PInf _ => True | PFin _ n _ => 0 <= n end ->
+  xeq (pf_value x) (ieee_value ew mw v) -> pf_neg x = ieee_neg ew mw v ->
+  (zs = true \/ v <> 2 ^ (ew + mw)) ->
+  FPH_to_ieee754 H x = v.
+Proof.
+  intros Hv Hx Hval Hneg Hz. destruct (bias_facts ew Hew) as [Hb1 Hb2]. fold bias in Hb1, Hb2.
+  destruct (fld_ranges' ew mw ltac:(lia) ltac:(lia) v) as (Hs & He & Hm).
+  pose proof (pow2_pos ew ltac:(lia)) as Pe. pose proof (pow2_pos mw ltac:(lia)) as Pm.
+  pose proof (pack_unpack_id ew mw v ltac:(lia) ltac:(lia) Hv) as PK. rewrite unpack_fields, pack_compose in PK by lia.
+  rewrite !Z.mod_small in PK by lia.
+  unfold ieee_value, ieee_neg in *. cbv zeta in Hval.
+  set (s := fld_s ew mw v) in *. set (e := fld_e ew mw v) in *. set (m := fld_m ew mw v) in *.
+  assert (AS : forall s' e' m', 0 <= e' < 2 ^ ew -> 0 <= m' < 2 ^ mw -> FPH_assemble (std_layout ew mw) s' e' m' = ieee_compose ew mw s' e' m').
+  { intros. apply fph_assemble_compose; lia. }
+  unfold FPH_to_ieee754. change (H_lay H) with (std_layout ew mw).
+  destruct x as [|neg|neg n d]; [contradiction| |].
+  - (* infinity *)
+    cbn [pf_value pf_neg] in *. destruct (Z.eqb_spec e (2 ^ ew - 1)) as [Ee | Ne]; [|contradiction].
+    destruct (Z.eqb_spec m 0) as [M0 | NM]; [|contradiction]. cbn [xeq] in Hval.
+    unfold FPH_to_parts. change (H_bias H) with bias. rewrite Hb2. rewrite Hneg, (b2z_bit' s Hs).
+    rewrite AS by lia. rewrite <- PK, Ee, M0. reflexivity.
+  - cbn [pf_value pf_neg] in *. destruct (Z.eqb_spec e (2 ^ ew - 1)) as [Ee | Ne].
+    { destruct (m =? 0); contradiction. }
+    cbn [xeq] in Hval. rewrite <- Hneg in Hval. apply sgnq_cancel in Hval.
+    destruct (Z.eq_dec n 0) as [N0 | NN].
+    + (* zero *)
+      subst n. assert (Z0 : (ieee_mag ew mw e m == 0)%Q) by (rewrite <- Hval; change (inject_Z 0) with 0%Q; ring).
+      assert (EM : e = 0 /\ m = 0).
+      { unfold ieee_mag in Z0. destruct (Z.eqb_spec e 0) as [E0 | NE0].
+        - split; [assumption|]. apply Qmult_integral in Z0 as [Z0 | Z0]; [|exfalso; exact (two_pow_nz _ Z0)].
+          unfold Qeq, inject_Z in Z0; simpl in Z0. lia.
+        - exfalso. apply Qmult_integral in Z0 as [Z0 | Z0]; [|exact (two_pow_nz _ Z0)].
+          unfold Qeq, inject_Z in Z0; simpl in Z0. lia. }
+      destruct EM as [E0 M0]. unfold FPH_to_parts. cbn [Z.eqb]. change (H_zero_sign H) with zs.
+      assert (V1 : v = s * 2 ^ (ew + mw)) by (rewrite <- PK, E0, M0; unfold ieee_compose; rewrite Z.pow_add_r by lia; ring).
+      destruct zs.
+      * rewrite Hneg, (b2z_bit' s Hs). rewrite AS by lia. rewrite <- PK, E0, M0. reflexivity.
+      * destruct Hz as [Hz | Hz]; [discriminate|]. assert (s = 0) by (destruct (Z.eq_dec s 0); [assumption | exfalso; apply Hz; rewrite V1; replace s with 1 by lia; ring]).
+        rewrite AS by lia. rewrite V1. replace s with 0 by lia. unfold ieee_compose. ring.
+    + (* finite, non-zero *)
+      assert (Hn : 0 < n) by lia. unfold ieee_mag in Hval.
+      destruct (Z.eqb_spec e 0) as [E0 | NE0].
+      * assert (Mpos : 0 < m).
+        { destruct (Z.eq_dec m 0) as [M0 | NM]; [|lia]. exfalso. rewrite M0 in Hval. change (inject_Z 0) with 0%Q in Hval. rewrite Qmult_0_l in Hval.
+          apply Qmult_integral in Hval as [Z0 | Z0]; [|exact (two_pow_nz _ Z0)]. unfold Qeq, inject_Z in Z0; simpl in Z0. lia. }
+        destruct (dyadic_parts n d m (1 - ieee_bias ew - mw) Hn Mpos Hval) as [PE PM].
+        unfold H. rewrite (encode_subnormal ew mw nanm zs Hew Hmw neg n d m) by first [lia | unfold ieee_bias in PE; exact PE | exact PM].
+        rewrite Hneg, (b2z_bit' s Hs). rewrite AS by lia. rewrite <- PK, E0. reflexivity.
+      * assert (LG : Z.log2 (2 ^ mw + m) = mw) by (apply log2_exact; [lia | rewrite Z.pow_add_r by lia; change (2 ^ 1) with 2; lia]).
+        destruct (dyadic_parts n d (2 ^ mw + m) (e - ieee_bias ew - mw) Hn ltac:(lia) Hval) as [PE PM]. rewrite LG in PE, PM.
+        unfold H. rewrite (encode_normal ew mw nanm zs Hew Hmw neg n d e m) by first [lia | unfold ieee_bias in PE; lia | exact PM].
+        rewrite Hneg, (b2z_bit' s Hs). rewrite AS by lia. exact PK.
+Qed.
+End E2.
+
+Lemma encode_exact_dp x v : 0 <= v < 2 ^ 64 ->
+  match x with PNaN => False | PInf _ => True | PFin _ n _ => 0 <= n end ->
+  xeq (pf_value x) (ieee_value 11 52 v) -> pf_neg x = ieee_neg 11 52 v -> FPH_to_ieee754 fph_dp x = v.
+Proof. intros. rewrite (proj2 fphs_std). apply encode_exact; first [lia | assumption | left; reflexivity]. Qed.
+
+Lemma encode_exact_sp x v : 0 <= v < 2 ^ 32 ->
+  match x with PNaN => False | PInf _ => True | PFin _ n _ => 0 <= n end ->
+  xeq (pf_value x) (ieee_value 8 23 v) -> pf_neg x = ieee_neg 8 23 v -> v <> 2 ^ 31 -> FPH_to_ieee754 fph_sp x = v.
+Proof. intros. unfold fph_sp. rewrite (proj1 fphs_std false). apply encode_exact; first [lia | assumption | right; assumption]. Qed.
